@@ -259,9 +259,9 @@ theorem usedLater_append_use (x : Var) (post post' : List Stmt) :
   rw [List.any_append, List.any_cons]
   simp [mentions]
 
-theorem liveLoan_of_find {x : Var} {i : Info} {k : LoanKind} {rest : List Stmt} :
-    ∀ {vars : List (Var × Info)}, find vars x = some i → i.loan = some k → i.live x rest = true →
-      liveLoan vars rest k = true := by
+theorem liveLoan_of_find {x : Var} {i : Info} {k : LoanKind} {rest : List Stmt} {g : Bool} :
+    ∀ {vars : List (Var × Info)}, find vars x = some i → i.loan = some k → i.live x rest g = true →
+      liveLoan vars rest k g = true := by
   intro vars hf hl hlive
   have hmem := mem_of_find hf
   unfold liveLoan
@@ -273,7 +273,7 @@ def conflicts : Access → LoanKind → Bool
   | _, _ => true
 
 theorem arenaErr_conflict {σ : State} {rest : List Stmt} {a : Access} {k : LoanKind}
-    (hl : liveLoan σ.vars rest k = true) (hc : conflicts a k = true) :
+    (hl : liveLoan σ.vars rest k a.glueCounts = true) (hc : conflicts a k = true) :
     (arenaErr σ rest a).isSome = true := by
   unfold arenaErr
   cases hal : σ.arenaAlive with
@@ -283,7 +283,7 @@ theorem arenaErr_conflict {σ : State} {rest : List Stmt} {a : Access} {k : Loan
 
 theorem check_conflict {t : Sigs} {σ : State} {c : Stmt} {rest : List Stmt} {a : Access}
     {k : LoanKind} (ha : access t c = some a) (hc : conflicts a k = true)
-    (hl : liveLoan σ.vars rest k = true) : (check t σ c rest).isSome = true := by
+    (hl : liveLoan σ.vars rest k a.glueCounts = true) : (check t σ c rest).isSome = true := by
   unfold check
   split
   · rfl
@@ -477,7 +477,8 @@ theorem update_keeps_unmoved {t : Sigs} {σ : State} {s : Stmt} {rest : List Stm
   | ret v => exact ⟨i, hx, Keeps.refl i, rfl⟩
 
 theorem glue_conflict_rej_aux {t : Sigs} {x : Var} {c : Stmt} {a : Access} {k : LoanKind}
-    {post : List Stmt} (ha : access t c = some a) (hc : conflicts a k = true) :
+    {post : List Stmt} (ha : access t c = some a) (hc : conflicts a k = true)
+    (hgc : a.glueCounts = true) :
     ∀ (mid : List Stmt) (σ : State) (i : Info), find σ.vars x = some i → i.loan = some k →
       i.glue = true → i.moved = false → mid.all (fun s => !kills t x s) = true →
       Rej t σ (mid ++ c :: post)
@@ -487,7 +488,7 @@ theorem glue_conflict_rej_aux {t : Sigs} {x : Var} {c : Stmt} {a : Access} {k : 
     apply check_conflict ha hc
     apply liveLoan_of_find hf hl
     unfold Info.live
-    rw [hm, hg]
+    rw [hm, hg, hgc]
     rfl
   | s :: mid, σ, i, hf, hl, hg, hm, hnk => by
     rw [List.cons_append]
@@ -499,18 +500,19 @@ theorem glue_conflict_rej_aux {t : Sigs} {x : Var} {c : Stmt} {a : Access} {k : 
       | false => rfl
       | true => rw [hh] at hnk; exact absurd hnk.1 (by decide)
     obtain ⟨i', hf', hk, hmv⟩ := update_keeps_unmoved hck hf hks
-    exact glue_conflict_rej_aux ha hc mid _ i' hf' (hk.loan.trans hl) (hk.glue.trans hg)
+    exact glue_conflict_rej_aux ha hc hgc mid _ i' hf' (hk.loan.trans hl) (hk.glue.trans hg)
       (hmv.trans hm) hnk.2
 
 /-- the result of `m` holds a loan and has drop glue -/
 def GlueHolder (t : Sigs) (m : MId) (k : LoanKind) : Prop :=
   ∃ sg, lookup t m = some sg ∧ loanOf sg = some k ∧ glueOf t sg = true
 
-/-- a container obtained from the arena and not dropped or consumed before a conflicting access:
+/-- a container obtained from the arena and not dropped or consumed before a conflicting access
+(other than the end of the arena's own block, where an unused container is block-local):
 rejected even without a later use (its destructor runs at the end of the scope). -/
 theorem glue_conflict_rej {t : Sigs} {m : MId} {k : LoanKind} {c : Stmt} {a : Access}
     (hm : GlueHolder t m k) (ha : access t c = some a) (hc : conflicts a k = true)
-    (pre mid post : List Stmt) (x : Var) (src : Option Var)
+    (hgc : a.glueCounts = true) (pre mid post : List Stmt) (x : Var) (src : Option Var)
     (hnk : mid.all (fun s => !kills t x s) = true) :
     accepts t (pre ++ .call (some x) m src :: (mid ++ c :: post)) = false := by
   apply accepts_false_of_rej
@@ -523,7 +525,7 @@ theorem glue_conflict_rej {t : Sigs} {m : MId} {k : LoanKind} {c : Stmt} {a : Ac
       some ⟨loanOf sg, if sg.retOther then src else none, glueOf t sg, false⟩ := by
     simp only [update, hl, bind]
     exact find_cons_eq
-  exact glue_conflict_rej_aux ha hc mid _ _ hf hk hgl rfl hnk
+  exact glue_conflict_rej_aux ha hc hgc mid _ _ hf hk hgl rfl hnk
 
 /-! ### returning a value that holds a loan on a local arena -/
 
